@@ -216,6 +216,20 @@ let run line =
     let pk = bx p in
     let r = rewrite_v6_lifetimes variant pk (n_of_decimal pref) (n_of_decimal valid) in
     hx r ^ " " ^ am (pk <> []) (r <> pk)
+  | ["relay4"; gi; pol; o; p] ->
+    let pol = match pol with "keep" -> Keep | "drop" -> Drop | _ -> Replace in
+    res_bytes (fun b -> Printf.sprintf "%s gp=%s gi=%s hops=%d" (hx b) (gp_codes b)
+                  (if List.length b < 28 then "nil" else hx (sub b 24 28))
+                  (if List.length b > 3 then int_of_n (List.nth b 3) else 0))
+      (relay_forward4 variant (bx p) (ip_of gi) (bx o) pol)
+  | ["relayreply4"; gi; p] ->
+    res_bytes (fun f -> hx f ^ " " ^ sum4 f ^ " gp=" ^ gp_codes (from f 28)) (relay_reply4 variant (bx p) (ip_of gi))
+  | ["proxyreply4"; gi; lease; p] ->
+    res_bytes (fun f ->
+        let b = from f 28 in
+        let g c = match get_option4 b (n_of_int c) with Ok (Some x) -> hx x | Ok None -> "none" | _ -> "crash" in
+        Printf.sprintf "%s %s gp=%s get=%s,%s,%s,%s" (hx f) (sum4 f) (gp_codes b) (g 54) (g 51) (g 58) (g 59))
+      (proxy_reply4 variant (bx p) (ip_of gi) (ni lease))
   | ["pseq6"; pd; pref; valid; raw; req] ->
     (match unwrap_relay_reply (bx raw) with
      | Ok inner ->
